@@ -40,11 +40,20 @@ def t_len_lt(x, n):
     return isinstance(x, str) and len(x) < n
 
 
+def t_strlen(x):
+    return len(x) if isinstance(x, str) else 0  # a truthy / falsy result that is not a bool (2 for "xy"): tests count by truthiness
+
+
+def t_strlen_bool(x):
+    return bool(t_strlen(x))
+
+
 def t_year_even(x):
     return hasattr(x, "year") and x.year % 2 == 0
 
 
-TESTS = {"is_none": t_is_none, "truthy": t_truthy, "total_even": t_total_even, "is_str": t_is_str, "in": t_in, "len_lt": t_len_lt, "year_even": t_year_even}
+TESTS = {"is_none": t_is_none, "truthy": t_truthy, "total_even": t_total_even, "is_str": t_is_str, "in": t_in, "len_lt": t_len_lt, "year_even": t_year_even, "strlen": t_strlen, "strlen_bool": t_strlen_bool}
+NONBOOL_TESTS = {"strlen": "strlen_bool"}
 
 
 def m_double(x):
@@ -89,17 +98,23 @@ MAPS = {"double": m_double, "first_char": m_first_char, "ident": m_ident, "upper
 
 
 # ---- builder: only the public DSL ----------------------------------------------------------------
-def build(q):
+def build(q, combined=False):
+    """combined: the query is an operand of & or |.  tinyflux combines operand results with the bitwise operators, which is the
+    logical combination only for bool results - the documented return type of a test function (Callable[..., bool]).  Test functions
+    returning other truthy / falsy values are therefore used as a whole query or under ~ only, where every path goes by truth value;
+    as an operand of & or | the same function is wrapped to return a bool."""
     from tinyflux import FieldQuery, MeasurementQuery, TagQuery, TimeQuery
 
     k = q[0]
     if k == "not":
-        return ~build(q[1])
+        return ~build(q[1], combined)
     if k == "and":
-        return build(q[1]) & build(q[2])
+        return build(q[1], True) & build(q[2], True)
     if k == "or":
-        return build(q[1]) | build(q[2])
+        return build(q[1], True) | build(q[2], True)
     _, attr, path, test = q
+    if combined and test[0] == "test" and test[1] in NONBOOL_TESTS:
+        test = ["test", NONBOOL_TESTS[test[1]], test[2]]
     base = {"time": TimeQuery, "meas": MeasurementQuery, "tag": TagQuery, "field": FieldQuery}[attr]()
     for part in path:
         if part[0] == "key":
